@@ -31,7 +31,7 @@ def hooks_for(family, t, f=None):
     if family == "blake":
         w = 32 if ("224" in t or "256" in t) else 64
         c = 256 if w == 32 else 512
-        return {check_blake.compress_hook_rx(w):
+        return {check_blake.compress_hook_rx(w, f):
                 check_blake.compress_hook("BLAKE%d_COMPRESS" % c, "blake_hash::Compressor%d" % c, 256 if w == 32 else 512)}
     if family == "skein":
         return check_skein.tf_hooks(None)
